@@ -43,7 +43,10 @@ DEFAULT["empty"] = "ignore"
 SITES = {"empty": ["ctor", "filter", "copy", "transform_copy"],
          "obsdup": ["ctor", "update_ids", "copy", "transform_copy"],
          "sampdup": ["ctor", "update_ids", "copy"],
-         "obssize": ["ctor", "ctor_zero"], "sampsize": ["ctor", "ctor_zero"],
+         "obssize": ["ctor", "ctor_zero", "ctor_rows", "ctor_rowdicts",
+                     "ctor_sparse"],
+         "sampsize": ["ctor", "ctor_zero", "ctor_rows", "ctor_rowdicts",
+                      "ctor_sparse"],
          "obsmdsize": ["ctor", "ctor_long", "copy"],
          "sampmdsize": ["ctor", "ctor_long", "copy"]}
 MESSAGES = {"empty": "Empty table!", "obssize": "observation IDs differs",
@@ -97,6 +100,18 @@ def trigger(kind, site):
             return (lambda: t.update_ids({"s1": "x", "s2": "x"},
                                          axis="sample", inplace=False))
         return lambda: Table(a, ["o1", "o2"], ["a", "a"])
+    if kind in ("obssize", "sampsize") and site in ("ctor_rows",
+                                                    "ctor_rowdicts",
+                                                    "ctor_sparse"):
+        # other input forms that carry a shape of their own
+        import scipy.sparse as sp
+        data = {"ctor_rows": [a[0].copy(), a[1].copy()],
+                "ctor_rowdicts": [{(0, 0): 1.0, (0, 1): 2.0},
+                                  {(0, 0): 3.0, (0, 1): 4.0}],
+                "ctor_sparse": sp.csc_matrix(a)}[site]
+        o, s_ = (["o1", "o2", "o3"], ["s1", "s2"]) if kind == "obssize" \
+            else (["o1", "o2"], ["s1", "s2", "s3"])
+        return lambda: Table(data, o, s_)
     if kind == "obssize":
         if site == "ctor_zero":     # a matrix without rows, one obs ID
             return lambda: Table(np.zeros((0, 2)), ["o1"], ["s1", "s2"])
@@ -171,23 +186,45 @@ def make_cb(tag):
     return cb
 
 
-CBS = {"cb1": make_cb("cb1"), "cb2": make_cb("cb2")}
+class CbBoom(Exception):
+    """Raised by the user callback 'cbraise' (a handler may fail)."""
 
 
-def observe_reaction(thunk):
-    """Run thunk; return (set of observed reactions, details)."""
+def make_raising_cb(tag):
+    def cb(item):
+        CALLS.append((tag, item))
+        raise CbBoom(tag)
+    cb.tag = tag
+    return cb
+
+
+CBS = {"cb1": make_cb("cb1"), "cb2": make_cb("cb2"),
+       "cbraise": make_raising_cb("cbraise")}
+
+
+def observe_reaction(thunk, wfilter="always"):
+    """Run thunk; return (set of observed reactions, details).  With
+    wfilter="error" warnings are turned into exceptions (python -W error),
+    so a 'warn' reaction leaves the call site as an exception."""
     from biom.exception import TableException
     del CALLS[:]
     seen = set()
     detail = {}
     with warnings.catch_warnings(record=True) as w:
-        warnings.simplefilter("always")
+        warnings.simplefilter(wfilter)
         with capture_stdout() as cap:
             try:
                 detail["result"] = thunk()
             except TableException as e:
                 seen.add("raise")
                 detail["exc"] = str(e)
+            except CbBoom:
+                detail["cb_raised"] = True
+            except Warning as e:
+                if wfilter != "error":
+                    raise
+                seen.add("warn")
+                detail["warn"] = [str(e)]
     if w:
         seen.add("warn")
         detail["warn"] = [str(x.message) for x in w]
@@ -221,6 +258,11 @@ def flat_statements():
         {"s": "probe", "kind": "empty", "site": "filter"},
         {"s": "probe", "kind": "sampsize", "site": "ctor"},
         {"s": "probe", "kind": "obsdup", "site": "copy"},
+        # handlers that fail: a callback that raises, a warning turned into
+        # an error; later errors must still be reported
+        {"s": "seterrcall", "kind": "obsdup", "cb": "cbraise"},
+        {"s": "probe", "kind": "sampsize", "site": "ctor",
+         "wfilter": "error"},
     ]
 
 
@@ -243,11 +285,13 @@ def statements(depth):
         st.builds(lambda kw: {"s": "seterr", "kw": kw}, KW),
         st.builds(lambda k, c: {"s": "seterrcall", "kind": k, "cb": c},
                   st.sampled_from(KINDS + ["bogus"]),
-                  st.sampled_from(["cb1", "cb2", "default"])),
+                  st.sampled_from(["cb1", "cb2", "default", "cbraise"])),
+        st.builds(lambda k, i, w: {"s": "probe", "kind": k, "site": i,
+                                   "wfilter": w},
+                  st.sampled_from(KINDS), st.integers(0, 4),
+                  st.sampled_from(["always", "always", "error"])),
         st.builds(lambda k, i: {"s": "probe", "kind": k, "site": i},
-                  st.sampled_from(KINDS), st.integers(0, 3)),
-        st.builds(lambda k, i: {"s": "probe", "kind": k, "site": i},
-                  st.sampled_from(KINDS), st.integers(0, 3)),
+                  st.sampled_from(KINDS), st.integers(0, 4)),
         st.just({"s": "probe_valid"}),
     )
     if depth <= 0:
@@ -365,7 +409,8 @@ def run(program, model, rec, path, stats):
             sites = SITES[kind]
             site = stmt["site"]
             site = sites[site % len(sites)] if isinstance(site, int) else site
-            probe(kind, site, model, where, rec)
+            probe(kind, site, model, where, rec,
+                  stmt.get("wfilter", "always"))
             stats["probes"] += 1
         elif s == "probe_valid":
             seen, detail = observe_reaction(valid_input())
@@ -407,10 +452,12 @@ def run(program, model, rec, path, stats):
         check_profile(model, where)
 
 
-def probe(kind, site, model, where, rec):
+def probe(kind, site, model, where, rec, wfilter="always"):
     from biom import Table
     want = model.state[kind]
-    seen, detail = observe_reaction(trigger(kind, site))
+    seen, detail = observe_reaction(trigger(kind, site), wfilter)
+    rec.cls("failing-handler", bool(detail.get("cb_raised")) or
+            (wfilter == "error" and want == "warn"))
     rec.cls("probe:%s:%s" % (kind, want))
     exp = {want} if want != "ignore" else set()
     if want == "call" and model.cb[kind] == "default":
